@@ -8,23 +8,23 @@ namespace PB.Log
 
 /-! ### Pure facts -/
 
+/-- What the regenerated `Equal` must be: two lines are identified exactly when neither was submitted by a
+    context tracer and message, file, line and level agree. Proved by unfolding `PB.Gen.Log.lineEqual`:
+    a changed operator (`||` → `&&`), a dropped or added case in logging.go breaks this proof. -/
+theorem equal_iff (a b : Line) :
+    a.equal b = true ↔
+      (a.trace = none ∧ b.trace = none ∧ a.msg = b.msg ∧ a.file = b.file ∧ a.line = b.line ∧ a.lvl = b.lvl) := by
+  unfold Line.equal PB.Gen.Log.lineEqual Line.key
+  cases a with | mk am al af an at_ =>
+  cases b with | mk bm bl bf bn bt =>
+  cases at_ <;> cases bt <;> simp <;> grind
+
 theorem equal_eq {a b : Line} (h : a.equal b = true) : a = b := by
-  unfold Line.equal at h
-  cases a with | mk am al as at_ =>
-  cases b with | mk bm bl bs bt =>
-  simp only at h
-  split at h
-  · cases h
-  · split at h
-    · cases h
-    · split at h
-      · cases h
-      · split at h
-        · cases h
-        · cases at_ <;> cases bt <;> simp_all
+  have := (equal_iff a b).mp h
+  cases a; cases b; simp_all
 
 theorem equal_self_of_plain (a : Line) (h : a.trace = none) : a.equal a = true := by
-  unfold Line.equal; simp [h]
+  rw [equal_iff]; simp [h]
 
 theorem expand_append (a b : List Write) : expand (a ++ b) = expand a ++ expand b := by
   induction a with
@@ -277,96 +277,474 @@ theorem inv_reachable {s : St} (h : Reachable s) : Inv s := by
   | init cap paced lv => exact inv_init cap paced lv
   | step _ hs ih => exact inv_step ih hs
 
+/-! ### Tracer submissions are never part of a merge
+
+`t1`: while the writer counts repetitions, the line it holds is a plain line; `t2`: no adapter write of a
+tracer line carries a repetition count. Both rest on `equal_iff`, i.e. on the regenerated `Equal`. -/
+structure TrInv (s : St) : Prop where
+  t0 : s.w.cur = none → s.w.dups = 0
+  t1 : ∀ c, s.w.cur = some c → 0 < s.w.dups → c.trace = none
+  t2 : ∀ w ∈ s.out, w.1.trace.isSome = true → w.2 = 0
+
+theorem trinv_init (cap paced lv) : TrInv (St.init cap paced lv) := by
+  constructor <;> simp [St.init, Writer.init]
+
+theorem trinv_of_frame {s s' : St} (hi : TrInv s) (hc : s'.w.cur = s.w.cur) (hd : s'.w.dups = s.w.dups)
+    (ho : s'.out = s.out) : TrInv s' := by
+  obtain ⟨t0, t1, t2⟩ := hi
+  constructor
+  · rw [hc, hd]; exact t0
+  · rw [hc, hd]; exact t1
+  · rw [ho]; exact t2
+
+theorem trinv_step {s s' : St} {a : Act} (hi : TrInv s) (hs : step s a = some s') : TrInv s' := by
+  cases a with
+  | p pid e =>
+    apply trinv_of_frame hi <;>
+      (cases e <;> simp only [step, St.accept, St.push] at hs <;> (repeat' split at hs) <;> (try cases hs) <;> rfl)
+  | wforce pid =>
+    apply trinv_of_frame hi <;> (simp only [step] at hs; (repeat' split at hs) <;> (try cases hs) <;> rfl)
+  | trigger =>
+    apply trinv_of_frame hi <;> (simp only [step] at hs; (repeat' split at hs) <;> (try cases hs) <;> rfl)
+  | setLevel g => simp only [step] at hs; cases hs; exact trinv_of_frame hi rfl rfl rfl
+  | setPkgs m => simp only [step] at hs; cases hs; exact trinv_of_frame hi rfl rfl rfl
+  | unsetPkgs => simp only [step] at hs; cases hs; exact trinv_of_frame hi rfl rfl rfl
+  | shutdown =>
+    apply trinv_of_frame hi <;> (simp only [step] at hs; (repeat' split at hs) <;> (try cases hs) <;> rfl)
+  | w e =>
+    obtain ⟨t0, t1, t2⟩ := hi
+    cases e with
+    | deq l =>
+      simp only [step] at hs
+      (repeat' split at hs) <;> (try cases hs)
+      · rename_i hnone
+        constructor
+        · intro hc; simp at hc
+        · intro c hc hd; simp only at hd; have := t0 hnone; omega
+        · exact t2
+      · rename_i c hcur heq
+        have hq := (equal_iff l c).mp heq
+        constructor
+        · intro hc; simp only at hc; rw [hcur] at hc; cases hc
+        · intro c' hc' _
+          simp only at hc'
+          have : c = c' := by rw [hcur] at hc'; exact Option.some.inj hc'
+          subst this
+          exact hq.2.1
+        · exact t2
+      · rename_i c hcur hne
+        constructor
+        · intro _; rfl
+        · intro c' _ hd; simp at hd
+        · intro w hw hts
+          simp only [List.mem_append, List.mem_singleton] at hw
+          rcases hw with hw | rfl
+          · exact t2 w hw hts
+          · cases hd : s.w.dups with
+            | zero => rfl
+            | succ n =>
+              have := t1 c hcur (by omega)
+              simp [this] at hts
+    | empty =>
+      simp only [step] at hs
+      (repeat' split at hs) <;> (try cases hs)
+      · constructor
+        · intro _; rfl
+        · intro c hc; simp at hc
+        · exact t2
+      · rename_i c hcur
+        constructor
+        · intro _; rfl
+        · intro c' hc'; simp at hc'
+        · intro w hw hts
+          simp only [List.mem_append, List.mem_singleton] at hw
+          rcases hw with hw | rfl
+          · exact t2 w hw hts
+          · cases hd : s.w.dups with
+            | zero => rfl
+            | succ n =>
+              have := t1 c hcur (by omega)
+              simp [this] at hts
+    | fdeq l =>
+      simp only [step] at hs
+      (repeat' split at hs) <;> (try cases hs)
+      constructor
+      · exact t0
+      · exact t1
+      · intro w hw hts
+        simp only [List.mem_append, List.mem_singleton] at hw
+        rcases hw with hw | rfl
+        · exact t2 w hw hts
+        · rfl
+    | token => simp only [step] at hs; (repeat' split at hs) <;> (try cases hs); exact ⟨t0, t1, t2⟩
+    | unset => simp only [step] at hs; (repeat' split at hs) <;> (try cases hs); exact ⟨t0, t1, t2⟩
+    | force => simp [step] at hs
+    | slot => simp only [step] at hs; (repeat' split at hs) <;> (try cases hs); exact ⟨t0, t1, t2⟩
+    | shut => simp only [step] at hs; (repeat' split at hs) <;> (try cases hs); exact ⟨t0, t1, t2⟩
+    | timer => simp only [step] at hs; (repeat' split at hs) <;> (try cases hs); exact ⟨t0, t1, t2⟩
+    | ftimeout => simp only [step] at hs; (repeat' split at hs) <;> (try cases hs); exact ⟨t0, t1, t2⟩
+
+theorem trinv_reachable {s : St} (h : Reachable s) : TrInv s := by
+  induction h with
+  | init cap paced lv => exact trinv_init cap paced lv
+  | step _ hs ih => exact trinv_step ih hs
+
+/-- Expanding writes whose tracer lines carry no repetition count keeps every tracer line exactly once. -/
+theorem expand_filter_tracer (ws : List Write) (h : ∀ w ∈ ws, w.1.trace.isSome = true → w.2 = 0) :
+    (expand ws).filter (·.trace.isSome) = (ws.filter (·.1.trace.isSome)).map (·.1) := by
+  induction ws with
+  | nil => rfl
+  | cons w ws ih =>
+    obtain ⟨l, d⟩ := w
+    have ih' := ih (fun w hw => h w (List.mem_cons_of_mem _ hw))
+    by_cases ht : l.trace.isSome = true
+    · have hd : d = 0 := h (l, d) List.mem_cons_self ht
+      subst hd
+      simp [expand, ht, ih']
+    · simp [expand, ht, ih']
+
+/-- One writeLoop round: no write of a tracer line carries a repetition count. -/
+theorem drainBatch_tracer (ls : List Line) : ∀ (cur : Option Line) (dups : Nat),
+    (cur = none → dups = 0) → (∀ c, cur = some c → 0 < dups → c.trace = none) →
+    let r := drainBatch { pc := .drain, cur := cur, dups := dups } ls
+    (∀ w ∈ r.2, w.1.trace.isSome = true → w.2 = 0) ∧ (r.1.cur = none → r.1.dups = 0) ∧
+      (∀ c, r.1.cur = some c → 0 < r.1.dups → c.trace = none) ∧ r.1.pc = .drain := by
+  induction ls with
+  | nil => intro cur dups h0 h; simp [drainBatch]; exact ⟨h0, h⟩
+  | cons l ls ih =>
+    intro cur dups h0 h
+    cases cur with
+    | none =>
+      have hd := h0 rfl
+      subst hd
+      have := ih (some l) 0 (by simp) (by intro c _ hd; omega)
+      simpa only [drainBatch, wstep, if_true, List.nil_append] using this
+    | some c =>
+      by_cases he : l.equal c = true
+      · have hq := (equal_iff l c).mp he
+        have := ih (some c) (dups + 1) (by simp) (by intro c' hc' _; cases hc'; exact hq.2.1)
+        simpa only [drainBatch, wstep, if_true, he, List.nil_append] using this
+      · have := ih (some l) 0 (by simp) (by intro c _ hd; omega)
+        simp only [drainBatch, wstep, if_true, he] at this ⊢
+        obtain ⟨a, b⟩ := this
+        refine ⟨?_, b⟩
+        intro w hw hts
+        simp only [Bool.false_eq_true, if_false, List.cons_append, List.nil_append, List.mem_cons] at hw
+        rcases hw with rfl | hw
+        · cases hd : dups with
+          | zero => rfl
+          | succ n =>
+            have := h c rfl (by omega)
+            simp [this] at hts
+        · exact a w hw hts
+
+theorem mergeRuns_tracer (ls : List Line) : ∀ w ∈ mergeRuns ls, w.1.trace.isSome = true → w.2 = 0 := by
+  have h := drainBatch_tracer ls none 0 (by simp) (by intro c hc; cases hc)
+  obtain ⟨a, b, c, d⟩ := h
+  unfold mergeRuns
+  simp only [wstep, d, if_true]
+  generalize drainBatch { pc := .drain, cur := none, dups := 0 } ls = r at *
+  cases hc : r.1.cur with
+  | none => simpa using a
+  | some x =>
+    intro w hw hts
+    simp only [List.mem_append, List.mem_singleton] at hw
+    rcases hw with hw | rfl
+    · exact a w hw hts
+    · cases hd : r.1.dups with
+      | zero => rfl
+      | succ n =>
+        have := c x hc (by omega)
+        simp [this] at hts
+
 /-! ### The run checker against its specification -/
 
-theorem takeItem_prefix (item : Nat) (got : List Got) :
-    got = takeItem item got ++ got.drop (takeItem item got).length ∧ ∀ g ∈ takeItem item got, g.item = item := by
+theorem matches_iff (e : Item) (g : Got) : e.matches g = true ↔ (g.item = e.item ∧ e.formOk g = true) := by
+  simp [Item.matches]
+
+theorem takeBlock_prefix (e : Item) (got : List Got) :
+    got = takeBlock e got ++ got.drop (takeBlock e got).length ∧
+      ∀ g ∈ takeBlock e got, g.item = e.item ∧ e.formOk g = true := by
   induction got with
-  | nil => simp [takeItem]
+  | nil => simp [takeBlock]
   | cons g gs ih =>
-    unfold takeItem
-    by_cases h : g.item = item
+    unfold takeBlock
+    by_cases h : e.matches g = true
     · simp only [h, if_true]
       refine ⟨by simpa using ih.1, ?_⟩
       intro x hx
       rcases List.mem_cons.mp hx with rfl | hx
-      · exact h
+      · exact (matches_iff e x).mp h
       · exact ih.2 x hx
     · simp [h]
 
-theorem checkProd_sound (gid : Nat) (es : List Item) : ∀ got, checkProd gid es got = .pass → Conforms es got := by
+theorem greedyProd_sound (gid : Nat) (es : List Item) : ∀ got, greedyProd gid es got = .pass → Conforms es got := by
   induction es with
   | nil =>
     intro got h
     cases got with
     | nil => exact .nil
-    | cons g gs => simp [checkProd] at h
+    | cons g gs => simp [greedyProd] at h
   | cons e es ih =>
     intro got h
-    unfold checkProd at h
+    unfold greedyProd at h
     simp only [] at h
     split at h
     · cases h
-    · rename_i hform
+    · rename_i hlo
       split at h
       · cases h
-      · rename_i hlo
-        split at h
-        · cases h
-        · rename_i hhi
-          have hp := takeItem_prefix e.item got
-          rw [hp.1]
-          refine .cons ?_ (by omega) (by omega) (ih _ h)
-          intro g hg
-          refine ⟨hp.2 g hg, ?_⟩
-          simp only [Classical.not_not, List.all_eq_true] at hform
-          exact hform g hg
+      · rename_i hhi
+        have hp := takeBlock_prefix e got
+        rw [hp.1]
+        exact .cons hp.2 (by omega) (by omega) (ih _ h)
 
-theorem takeItem_block (item : Nat) (blk rest : List Got) (hb : ∀ g ∈ blk, g.item = item)
-    (hr : ∀ g r, rest = g :: r → g.item ≠ item) : takeItem item (blk ++ rest) = blk := by
+/-- `splits` lists exactly the ways to take a block off the front. -/
+theorem splits_sound (e : Item) : ∀ (got : List Got) (k n : Nat) (r : Rem), r ∈ splits e k n got →
+    ∃ blk, got = blk ++ r.2 ∧ (∀ g ∈ blk, g.item = e.item ∧ e.formOk g = true) ∧
+      e.lo ≤ k + blk.length ∧ (k ≤ e.hi → k + blk.length ≤ e.hi) ∧ r.1 = n - blk.length := by
+  intro got
+  induction got with
+  | nil =>
+    intro k n r hr
+    simp only [splits] at hr
+    split at hr
+    · simp only [List.mem_singleton] at hr; subst hr
+      exact ⟨[], by simp, by simp, by simpa, by simp, by simp⟩
+    · cases hr
+  | cons g gs ih =>
+    intro k n r hr
+    simp only [splits, List.mem_append] at hr
+    rcases hr with hr | hr
+    · split at hr
+      · simp only [List.mem_singleton] at hr; subst hr
+        exact ⟨[], by simp, by simp, by simpa, by simp, by simp⟩
+      · cases hr
+    · split at hr
+      · rename_i hk
+        obtain ⟨blk, h1, h2, h3, h4, h5⟩ := ih (k + 1) (n - 1) r hr
+        refine ⟨g :: blk, by simp [h1], ?_, by simp; omega, by intro _; simp; omega, by simp; omega⟩
+        intro x hx
+        rcases List.mem_cons.mp hx with rfl | hx
+        · exact (matches_iff e x).mp hk.2
+        · exact h2 x hx
+      · cases hr
+
+theorem splits_complete (e : Item) : ∀ (blk rest : List Got) (k n : Nat),
+    (∀ g ∈ blk, g.item = e.item ∧ e.formOk g = true) → e.lo ≤ k + blk.length → k + blk.length ≤ e.hi →
+    (n - blk.length, rest) ∈ splits e k n (blk ++ rest) := by
+  intro blk
   induction blk with
   | nil =>
+    intro rest k n _ hlo _
     cases rest with
-    | nil => rfl
-    | cons g r => simp [takeItem, hr g r rfl]
+    | nil => simp only [List.append_nil, splits]; simp at hlo; simp [hlo]
+    | cons g gs => simp only [List.nil_append, splits, List.mem_append]; simp at hlo; left; simp [hlo]
   | cons b bs ih =>
-    simp only [List.cons_append, takeItem, hb b (List.mem_cons_self), if_true]
-    rw [ih (fun g hg => hb g (List.mem_cons_of_mem _ hg))]
+    intro rest k n hb hlo hhi
+    simp only [List.cons_append, splits, List.mem_append]
+    right
+    have hm : e.matches b = true := (matches_iff e b).mpr (hb b List.mem_cons_self)
+    simp only [List.length_cons] at hlo hhi
+    rw [if_pos ⟨by omega, hm⟩]
+    have := ih rest (k + 1) (n - 1) (fun g hg => hb g (List.mem_cons_of_mem _ hg)) (by omega) (by omega)
+    simpa [Nat.sub_sub, Nat.add_comm] using this
 
-theorem conforms_head {es : List Item} {got : List Got} (h : Conforms es got) :
-    ∀ g r, got = g :: r → g.item ∈ es.map (·.item) := by
-  induction h with
-  | nil => intro g r h; cases h
-  | @cons e es blk rest hb _ _ _ ih =>
-    intro g r hg
-    cases blk with
-    | nil =>
-      simp only [List.nil_append] at hg
-      exact List.mem_cons_of_mem _ (ih g r hg)
-    | cons b bs =>
-      simp only [List.cons_append, List.cons.injEq] at hg
-      have := (hb b List.mem_cons_self).1
-      rw [← hg.1, this]; simp
+theorem mem_addRem (x y : Rem) (fr : List Rem) : y ∈ addRem x fr → y = x ∨ y ∈ fr := by
+  unfold addRem
+  split
+  · exact Or.inr
+  · intro h; rcases List.mem_cons.mp h with h | h
+    · exact Or.inl h
+    · exact Or.inr h
 
-theorem checkProd_complete (gid : Nat) {es : List Item} {got : List Got} (h : Conforms es got)
-    (hd : (es.map (·.item)).Nodup) : checkProd gid es got = .pass := by
-  induction h with
-  | nil => rfl
-  | @cons e es blk rest hb hlo hhi hc ih =>
-    simp only [List.map_cons, List.nodup_cons] at hd
-    have ht : takeItem e.item (blk ++ rest) = blk :=
-      takeItem_block e.item blk rest (fun g hg => (hb g hg).1) (by
-        intro g r hg heq
-        have := conforms_head hc g r hg
-        rw [heq] at this
-        exact hd.1 this)
-    unfold checkProd
-    simp only [ht]
-    have hall : blk.all e.formOk = true := by
-      rw [List.all_eq_true]; intro g hg; exact (hb g hg).2
-    simp only [hall, not_true_eq_false, if_false]
-    rw [if_neg (by omega), if_neg (by omega)]
-    simpa using ih hd.2
+theorem mem_dedupRem (fr : List Rem) : ∀ y, y ∈ dedupRem fr → y ∈ fr := by
+  induction fr with
+  | nil => intro y h; simp [dedupRem] at h
+  | cons x xs ih =>
+    intro y h
+    simp only [dedupRem, List.foldr_cons] at h
+    rcases mem_addRem x y _ h with rfl | h
+    · exact List.mem_cons_self
+    · exact List.mem_cons_of_mem _ (ih y h)
+
+theorem dedupRem_keeps (fr : List Rem) : ∀ x ∈ fr, ∃ y ∈ dedupRem fr, y.1 = x.1 := by
+  induction fr with
+  | nil => intro x h; cases h
+  | cons a as ih =>
+    intro x hx
+    simp only [dedupRem, List.foldr_cons]
+    have hstep : ∀ z : Rem, (∃ y ∈ as.foldr addRem [], y.1 = z.1) → ∃ y ∈ addRem a (as.foldr addRem []), y.1 = z.1 := by
+      intro z ⟨y, hy, hyz⟩
+      unfold addRem
+      split
+      · exact ⟨y, hy, hyz⟩
+      · exact ⟨y, List.mem_cons_of_mem _ hy, hyz⟩
+    rcases List.mem_cons.mp hx with rfl | hx
+    · unfold addRem
+      split
+      · rename_i hany
+        obtain ⟨y, hy, hyx⟩ := List.any_eq_true.mp hany
+        exact ⟨y, hy, by simpa using hyx⟩
+      · exact ⟨x, List.mem_cons_self, rfl⟩
+    · exact hstep x (ih x hx)
+
+theorem mem_splitsAll (e : Item) (fr : List Rem) (r : Rem) :
+    r ∈ splitsAll e fr ↔ ∃ x ∈ fr, r ∈ splits e 0 x.1 x.2 := by
+  induction fr with
+  | nil => simp [splitsAll]
+  | cons a as ih => simp [splitsAll, ih]
+
+theorem conformsFrom_sound (es : List Item) : ∀ fr, conformsFrom es fr = true → ∃ x ∈ fr, Conforms es x.2 := by
+  induction es with
+  | nil =>
+    intro fr h
+    simp only [conformsFrom, List.any_eq_true] at h
+    obtain ⟨x, hx, he⟩ := h
+    refine ⟨x, hx, ?_⟩
+    have : x.2 = [] := by simpa using he
+    rw [this]; exact .nil
+  | cons e es ih =>
+    intro fr h
+    simp only [conformsFrom] at h
+    obtain ⟨r, hr, hc⟩ := ih _ h
+    obtain ⟨x, hx, hs⟩ := (mem_splitsAll e fr r).mp (mem_dedupRem _ r hr)
+    obtain ⟨blk, h1, h2, h3, h4, _⟩ := splits_sound e x.2 0 x.1 r hs
+    refine ⟨x, hx, ?_⟩
+    rw [h1]
+    exact .cons h2 (by simpa using h3) (by simpa using h4 (Nat.zero_le _)) hc
+
+/-- What the frontier elements are: suffixes of the goroutine's output, tagged with their length. -/
+def RemOk (got : List Got) (x : Rem) : Prop := x.1 = x.2.length ∧ x.2 <:+ got
+
+theorem remOk_eq {got : List Got} {x y : Rem} (hx : RemOk got x) (hy : RemOk got y) (h : x.1 = y.1) : x = y := by
+  obtain ⟨x1, x2⟩ := x
+  obtain ⟨y1, y2⟩ := y
+  simp only [RemOk] at hx hy h
+  have hl : x2.length = y2.length := by omega
+  have hs : x2 <:+ y2 := List.suffix_of_suffix_length_le hx.2 hy.2 (by omega)
+  have : x2 = y2 := hs.eq_of_length hl
+  subst this; subst h; rfl
+
+theorem conformsFrom_complete (got : List Got) (es : List Item) : ∀ fr, (∀ x ∈ fr, RemOk got x) →
+    (∃ x ∈ fr, Conforms es x.2) → conformsFrom es fr = true := by
+  induction es with
+  | nil =>
+    intro fr _ ⟨x, hx, hc⟩
+    cases hc' : x.2 with
+    | nil => simp only [conformsFrom, List.any_eq_true]; exact ⟨x, hx, by simp [hc']⟩
+    | cons g gs => rw [hc'] at hc; cases hc
+  | cons e es ih =>
+    intro fr hok ⟨x, hx, hc⟩
+    simp only [conformsFrom]
+    generalize hx2 : x.2 = l at hc
+    cases hc with
+    | @cons _ _ blk rest hb hlo hhi hrest =>
+      have hmem : (x.1 - blk.length, rest) ∈ splitsAll e fr := by
+        rw [mem_splitsAll]
+        refine ⟨x, hx, ?_⟩
+        rw [hx2]
+        exact splits_complete e blk rest 0 x.1 hb (by simpa using hlo) (by simpa using hhi)
+      have hokx := hok x hx
+      -- every element of the new frontier is again a tagged suffix
+      have hok' : ∀ r ∈ splitsAll e fr, RemOk got r := by
+        intro r hr
+        obtain ⟨y, hy, hs⟩ := (mem_splitsAll e fr r).mp hr
+        obtain ⟨b, h1, _, _, _, h5⟩ := splits_sound e y.2 0 y.1 r hs
+        have hoky := hok y hy
+        refine ⟨?_, ?_⟩
+        · rw [h5, hoky.1, h1]; simp
+        · exact List.IsSuffix.trans ⟨b, h1.symm⟩ hoky.2
+      obtain ⟨y, hy, hyl⟩ := dedupRem_keeps _ _ hmem
+      have hyeq : y = (x.1 - blk.length, rest) :=
+        remOk_eq (hok' y (mem_dedupRem _ y hy)) (hok' _ hmem) hyl
+      apply ih _ (fun r hr => hok' r (mem_dedupRem _ r hr))
+      exact ⟨y, hy, by rw [hyeq]; exact hrest⟩
+
+theorem conformsB_iff (es : List Item) (got : List Got) : conformsB es got = true ↔ Conforms es got := by
+  constructor
+  · intro h
+    obtain ⟨x, hx, hc⟩ := conformsFrom_sound es _ h
+    simp only [List.mem_singleton] at hx
+    subst hx; exact hc
+  · intro h
+    exact conformsFrom_complete got es _ (by
+      intro x hx
+      simp only [List.mem_singleton] at hx
+      subst hx
+      exact ⟨rfl, List.suffix_refl _⟩) ⟨_, List.mem_singleton.mpr rfl, h⟩
+
+theorem checkProd_sound (gid : Nat) (es : List Item) (got : List Got) (h : checkProd gid es got = .pass) :
+    Conforms es got := by
+  unfold checkProd at h
+  split at h
+  · rename_i hg; exact greedyProd_sound gid es got hg
+  · split at h
+    · rename_i hb; exact (conformsB_iff es got).mp hb
+    · rename_i hv _; exact absurd h (by intro h'; exact hv h')
+
+theorem checkProd_complete (gid : Nat) {es : List Item} {got : List Got} (h : Conforms es got) :
+    checkProd gid es got = .pass := by
+  unfold checkProd
+  split
+  · rfl
+  · rw [if_pos ((conformsB_iff es got).mpr h)]
+
+theorem firstMissing_sound : ∀ (must got : List Got), firstMissing must got = none → must.Sublist got := by
+  intro must got
+  induction got generalizing must with
+  | nil =>
+    intro h
+    cases must with
+    | nil => exact .slnil
+    | cons m ms => simp [firstMissing] at h
+  | cons g gs ih =>
+    intro h
+    cases must with
+    | nil => exact List.nil_sublist _
+    | cons m ms =>
+      unfold firstMissing at h
+      by_cases hm : m = g
+      · simp only [hm, if_true] at h
+        subst hm
+        exact (ih ms h).cons_cons _
+      · simp only [hm, if_false] at h
+        exact (ih (m :: ms) h).cons _
+
+theorem firstMissing_complete : ∀ (must got : List Got), must.Sublist got → firstMissing must got = none := by
+  intro must got h
+  induction got generalizing must with
+  | nil => cases h; rfl
+  | cons g gs ih =>
+    cases must with
+    | nil => rfl
+    | cons m ms =>
+      unfold firstMissing
+      by_cases hm : m = g
+      · simp only [hm, if_true]
+        subst hm
+        exact ih ms (List.cons_sublist_cons.mp h)
+      · simp only [hm, if_false]
+        cases h with
+        | cons _ h' => exact ih _ h'
+        | cons_cons _ h' => exact absurd rfl hm
+
+theorem checkTracers_sound (outs : List OutW) (exps : Nat → List Item) :
+    ∀ n gid, checkTracers outs exps gid n = .pass → ∀ g, gid ≤ g → g < gid + n →
+      (tracerMust (exps g)).Sublist (tracerGot g outs) := by
+  intro n
+  induction n with
+  | zero => intro gid _ g h1 h2; omega
+  | succ n ih =>
+    intro gid h g h1 h2
+    unfold checkTracers at h
+    cases hp : firstMissing (tracerMust (exps gid)) (tracerGot gid outs) with
+    | none =>
+      rw [hp] at h
+      by_cases hg : g = gid
+      · subst hg; exact firstMissing_sound _ _ hp
+      · exact ih (gid + 1) h g (by omega) (by omega)
+    | some m => rw [hp] at h; cases h
 
 theorem checkProds_sound (outs : List OutW) (exps : Nat → List Item) :
     ∀ n gid, checkProds outs exps gid n = .pass → ∀ g, gid ≤ g → g < gid + n → Conforms (exps g) (expandOut g outs) := by
@@ -386,6 +764,7 @@ theorem checkProds_sound (outs : List OutW) (exps : Nat → List Item) :
 
 theorem checkRun_sound (np : Nat) (exps : Nat → List Item) (outs : List OutW) (h : checkRun np exps outs = .pass) :
     (∀ o ∈ outs, o.gid < np) ∧ (∀ o ∈ outs, o.entries.isSome → o.dups = 0) ∧
+      (∀ g, g < np → (tracerMust (exps g)).Sublist (tracerGot g outs)) ∧
       ∀ g, g < np → Conforms (exps g) (expandOut g outs) := by
   unfold checkRun at h
   split at h
@@ -394,14 +773,19 @@ theorem checkRun_sound (np : Nat) (exps : Nat → List Item) (outs : List OutW) 
     split at h
     · cases h
     · rename_i hnone2
-      refine ⟨?_, ?_, fun g hg => checkProds_sound outs exps np 0 h g (by omega) (by omega)⟩
-      · intro o ho
-        have := List.find?_eq_none.mp hnone o ho
-        simpa using this
-      · intro o ho hs
-        have := List.find?_eq_none.mp hnone2 o ho
-        simp [OutW.mergedTracer, hs] at this
-        exact this
+      split at h
+      · rename_i htr
+        refine ⟨?_, ?_, fun g hg => checkTracers_sound outs exps np 0 htr g (by omega) (by omega),
+          fun g hg => checkProds_sound outs exps np 0 h g (by omega) (by omega)⟩
+        · intro o ho
+          have := List.find?_eq_none.mp hnone o ho
+          simpa using this
+        · intro o ho hs
+          have := List.find?_eq_none.mp hnone2 o ho
+          simp [OutW.mergedTracer, hs] at this
+          exact this
+      · rename_i hv
+        exact absurd h hv
 
 /-! ### Liveness: the writer alone can drain the buffer -/
 
